@@ -324,7 +324,7 @@ def _rename_shard(item):
 def run(report):
     quick = report.tier == "quick"
     report.rule = RULE % (len(IDS), len(FEATS))
-    switches = sorted(open_switches())
+    switches = sorted(open_switches('C09'))
     for s in switches:
         report.exclusions.setdefault(s, 0)
     ns = env.NPROC * 4
